@@ -113,6 +113,8 @@ pub enum Kind {
     FinderNoPre,
     IterFirst,
     FinderOwned,
+    /// first element of find_iter() on an owned finder (goes through as_ref)
+    IterOwned,
     FinderAsRef,
     TwoWay,
     Rk,
@@ -129,6 +131,8 @@ pub enum Kind {
     RFinder,
     RIterFirst,
     RFinderOwned,
+    /// first element of rfind_iter() on an owned reverse finder
+    RIterOwned,
     RTwoWay,
     RRk,
     PfSse2,
@@ -147,6 +151,8 @@ impl Kind {
             "finder-nopre" => Kind::FinderNoPre,
             "iter-first" => Kind::IterFirst,
             "finder-owned" => Kind::FinderOwned,
+            "iter-owned" => Kind::IterOwned,
+            "riter-owned" => Kind::RIterOwned,
             "finder-asref" => Kind::FinderAsRef,
             "twoway" => Kind::TwoWay,
             "rk" => Kind::Rk,
@@ -191,6 +197,8 @@ impl Kind {
             Kind::FinderNoPre => "finder-nopre".into(),
             Kind::IterFirst => "iter-first".into(),
             Kind::FinderOwned => "finder-owned".into(),
+            Kind::IterOwned => "iter-owned".into(),
+            Kind::RIterOwned => "riter-owned".into(),
             Kind::FinderAsRef => "finder-asref".into(),
             Kind::TwoWay => "twoway".into(),
             Kind::Rk => "rk".into(),
@@ -219,17 +227,27 @@ impl Kind {
 
     pub fn sem(&self) -> Sem {
         match self {
-            Kind::RMemmem | Kind::RFinder | Kind::RIterFirst | Kind::RFinderOwned | Kind::RTwoWay | Kind::RRk => Sem::Rev,
+            Kind::RMemmem | Kind::RFinder | Kind::RIterFirst | Kind::RFinderOwned | Kind::RIterOwned | Kind::RTwoWay | Kind::RRk => Sem::Rev,
             Kind::PfSse2 | Kind::PfAvx2 | Kind::PfNeon | Kind::PfSimd | Kind::PfPortable | Kind::PfVn(_) => Sem::Cand,
             Kind::RankedAll(..) => Sem::FwdAll,
             _ => Sem::Fwd,
         }
     }
 
-    /// Whether building from a borrowed needle and searching must not touch
-    /// the heap (C17). The owning conversions and Shift-Or may allocate.
+    /// Whether CONSTRUCTING the subject must not touch the heap (C17). The
+    /// owning conversions and Shift-Or may allocate.
     pub fn must_not_alloc(&self) -> bool {
-        !matches!(self, Kind::FinderOwned | Kind::RFinderOwned | Kind::ShiftOr | Kind::RankedAll(..))
+        !matches!(
+            self,
+            Kind::FinderOwned | Kind::RFinderOwned | Kind::IterOwned | Kind::RIterOwned | Kind::ShiftOr | Kind::RankedAll(..)
+        )
+    }
+
+    /// Whether SEARCHING with the built subject must not touch the heap:
+    /// everything except the harness-side sequence collection - in
+    /// particular searching (and iterating) with an OWNED finder.
+    pub fn search_must_not_alloc(&self) -> bool {
+        !matches!(self, Kind::RankedAll(..))
     }
 }
 
@@ -297,6 +315,8 @@ pub enum Built<'n> {
     FinderAsRef(Finder<'n>),
     IterFirst(&'n [u8]),
     FinderStatic(Finder<'static>),
+    IterOwned(Finder<'static>),
+    RIterOwned(FinderRev<'static>),
     TwoWay(twoway::Finder, &'n [u8]),
     Rk(rabinkarp::Finder, &'n [u8]),
     #[cfg(feature = "alloc")]
@@ -353,6 +373,10 @@ pub fn build<'n>(kind: &Kind, needle: &'n [u8], pair: Option<Pair>, seed: u64) -
             drop(tmp);
             Built::FinderStatic(owned)
         }
+        #[cfg(feature = "alloc")]
+        Kind::IterOwned => Built::IterOwned(Finder::new(needle).into_owned()),
+        #[cfg(feature = "alloc")]
+        Kind::RIterOwned => Built::RIterOwned(FinderRev::new(needle).into_owned()),
         Kind::FinderAsRef => Built::FinderAsRef(Finder::new(needle)),
         Kind::TwoWay => Built::TwoWay(twoway::Finder::new(needle), needle),
         Kind::Rk => Built::Rk(rabinkarp::Finder::new(needle), needle),
@@ -481,6 +505,8 @@ impl<'n> Built<'n> {
                 Ran::Pos(r.find(h))
             }
             Built::FinderStatic(f) => Ran::Pos(f.find(h)),
+            Built::IterOwned(f) => Ran::Pos(f.find_iter(h).next()),
+            Built::RIterOwned(f) => Ran::Pos(f.rfind_iter(h).next()),
             Built::IterFirst(n) => Ran::Pos(memmem::find_iter(h, *n).next()),
             Built::TwoWay(f, n) => Ran::Pos(f.find(h, n)),
             Built::Rk(f, n) => Ran::Pos(f.find(h, n)),
